@@ -181,7 +181,6 @@ Qed.
                every stored ancestor list = the parent chain of the Queue objects] *)
 Definition law_alias (toks : list Z) : option bool :=
   match toks with
-  | [before; _; after; unchanged] => Some ((before =? after) && (unchanged =? 1))
   | [before; _; after; unchanged; chains] => Some ((before =? after) && (unchanged =? 1) && (chains =? 1))
   | _ => None
   end.
